@@ -236,12 +236,20 @@ class Driver:
             # pipeline can be lost with it (the property promises state and answers, not delivery on a connection the server
             # drops): when the model refuses a later request, closure is accepted in place of the earlier reply -- the model
             # still advances, and the next init echo must report the advanced state
-            st, refusing = self.state, []
+            st, cfg_, edb_, refusing = self.state, self.cfg, self.edb, []
             for e in evs:
-                ok = (e[0] == "config" and st == 0) or (e[0] == "upload" and st == 1) or (e[0] == "search" and st == 2)
+                if e[0] == "config":
+                    ok = st == 0
+                    if ok:
+                        st, cfg_ = 1, self.fx["c"][e[1]]
+                elif e[0] == "upload":
+                    ok = st == 1
+                    if ok:
+                        st, edb_ = 2, self.fx["e"][e[1]]
+                else:
+                    # a search is answered only if the accepted index can be searched under the accepted configuration at all
+                    ok = st == 2 and local_answer(self.fx, cfg_, edb_, self.fx["tok"][e[1].encode()]) is not None
                 refusing.append(not ok)
-                if ok and e[0] != "search":
-                    st += 1
             for j, e in enumerate(evs):
                 if self.rc is None:
                     break  # the connection was dropped by a refusal: later requests of the pair are never handled
@@ -456,7 +464,7 @@ def shards(tier):
 def run_shard(spec, seed, tier):
     res = ShardResult()
     if spec["kind"] == "hyp":
-        n, ml = (25, 12) if tier == "quick" else (300, 25)
+        n, ml = (50, 12) if tier == "quick" else (900, 25)
         hyp.search(res, st_case(ml), body, seed, n)
     else:
         depth = 4 if tier == "quick" else 5
